@@ -109,19 +109,25 @@ CLAIMED = {
          "support only. Axioms: propext, Classical.choice, Quot.sound.",
     technique="Lean 4 proof of a mirror model + differential correspondence check on operation histories"),
  "C06": dict(
-    category="translation_validation",
+    category="proof",
     text="Two parts. (1) A Lean mirror of translate_function_extended (work-list discover + assemble on the C15 CfgEdit operations) with "
-         "theorems for ALL translation tables: the assembled function is well formed (no edge or entry names a missing block), its entry "
-         "is the graph inserted for the function address, every instruction address is inserted exactly once, the final merge preserves "
-         "the language from the entry, the work list is closed under successors and manual edges, and assemble never panics after "
-         "discover; the mirror is compared by exact FIL equality with the function falcon returns, on real programs and on adversarial "
-         "synthetic translation tables. (2) The execution clause is validated per program: the recovered function is executed by falcon's "
-         "executor and compared - address trace, final registers, memory, next pc - with the single-step reference (lift one instruction "
-         "at pc with the same translator, run it, follow its successors), both recomputed in Lean from the dumped IL.",
+         "theorems for ALL translation tables, manual-edge sets and function addresses. Structure: the assembled function is well formed "
+         "(no edge or entry names a missing block), its entry is the graph inserted for the function address, every instruction address "
+         "is inserted exactly once, the work list is closed under successors and manual edges, assemble never panics after discover. "
+         "Semantics (asm_refines, translate_function_refines, asm_refines_stuck, merge_preserves_executions): under the decidable "
+         "Coherent hypothesis on the table (one instruction graph per address whichever window it was lifted in, ...), for every state and "
+         "every length, finite runs of the one-instruction-at-a-time reference and FRun executions of the recovered function (the IL "
+         "semantics C07 ties to the executor) correspond in both directions through a state-preserving map, through the final merge, "
+         "wherever windows end and whichever blocks branches target. The mirror is compared by exact FIL equality with the function falcon "
+         "returns and the coherence hypothesis is evaluated on every case. (2) Per program, the recovered function is executed by "
+         "falcon's executor and compared - address trace, final registers, memory, next pc - with the single-step reference recomputed in "
+         "Lean from the dumped IL and with an independent byte-level reference machine.",
     design_ref="DESIGN.md §6 C06",
-    note="The execution bisimulation (asm_simulates) is NOT proved: executions are validated on generated MIPS/MIPSEL/x86/amd64 programs "
-         "(window-straddling layouts, branches into lifted blocks, manual edges). Per-instruction lifting is shared by both sides, so "
-         "instruction semantics cancel out. Known finding: MIPS branch into another branch's delay slot.",
+    note="asm_refines is a weak bisimulation on finite runs over FStep (divergence not treated); the harness-level equality runFn = runRef "
+         "(fuel, roll-back at a failed edge choice, lone-edge guards) is validated per case on generated MIPS/MIPSEL/x86/amd64 programs "
+         "(window-straddling layouts, branches into lifted blocks, manual edges), not proved. SingleCoherent (transfers of one lifted "
+         "instruction) is checked per case, not proved of the lifters (their semantics are C01-C03). Known findings: MIPS branch into "
+         "another branch's delay slot; conditional branch to its own fall-through address keeps one guarded edge.",
     technique="Lean 4 mirror of the assembly algorithm + theorems; exact structural correspondence; per-program trace validation"),
  "C07": dict(
     category="proof",
@@ -181,7 +187,9 @@ CLAIMED = {
          "is judged by the Lean checker spoCheck; theorem spoCheck_sound: acceptance implies that after every location on every FRun "
          "from the entry a reported number k satisfies sp = s0 + k in BitVec w; isize_congruent ties falcon's `u64 as isize` to that "
          "reading; the completion clause is checked directly; rejected maps trigger a search for a concrete contradicting run "
-         "(aligned and unaligned s0).",
+         "(aligned and unaligned s0). For machine-code cases the Lean ISA interpreters (MIPS, PPC, A64, x86) run the same bytes and every "
+         "number falcon reports at an instruction boundary is compared with the ARCHITECTURAL stack register (r29, r1, SP, esp/rsp), so "
+         "the register's name is not taken from falcon.",
     design_ref="DESIGN.md §6 C17",
     note="Runs end at Operation::Branch and at intrinsics (claims behind them are vacuous; the strict verdict is informative only); one "
          "width per name, no SSA; which scalar is the stack pointer is taken from falcon (C20's subject).",
@@ -213,58 +221,67 @@ CLAIMED = {
  "C19": dict(
     category="translation_validation",
     text="ELF loading is modelled definitionally in Lean from a structured description of the file (what goblin hands to falcon); "
-         "theorems show the model is what the property states (image_exact, perm_bits, arch_named, entries_exact, rebase_uniform, "
-         "link_once_partial). The real loader::Elf / ElfLinker are compared with the model on files produced by an ELF writer (ELF32/64, "
-         "LSB/MSB, five machines, 1-4 PT_LOAD segments, symbol/dynamic/relocation tables, 1-4 linked objects) at four base addresses.",
+         "theorems show the model is what the property states (image_exact, perm_bits, arch_named, entries_exact, rebase_uniform, fits_ok, "
+         "and link_once over ALL histories of linker calls: every symbol-naming relocated word - x86 R_386_32/GLOB_DAT/JMP_SLOT and the "
+         "MIPS o32 global GOT - holds the once-rebased address of the first placement exporting the symbol, and no later load_elf call "
+         "touches a byte of an earlier object). The real loader::Elf / ElfLinker, including histories of the public load_elf, are compared "
+         "with the model on files produced by an ELF writer (ELF32/64, LSB/MSB, five machines, 1-4 PT_LOAD segments, symbol/dynamic/"
+         "relocation tables, 1-4 linked objects plus later loads) at four base addresses.",
     design_ref="DESIGN.md §6 C19",
     note="goblin's parsing is an external call: its view is checked against the description on every case, and the writer against "
-         "readelf on every run. MIPS GOT relocation words rest on the correspondence only. Overlapping segments and addresses >= 2^64 "
+         "readelf on every run. Additive relocation kinds (R_386_RELATIVE, R_MIPS_REL32, local GOT) are covered by the frame lemma and the "
+         "correspondence, not by an explicit word = old + base statement. Overlapping segments and addresses >= 2^64 "
          "are outside the domain (model and falcon are still compared there).",
     technique="Lean 4 definitional model + theorems; generated-file correspondence check with a readelf self-test"),
  "C03": dict(
     category="proof",
-    text="21 Lean theorems. For add/adds/sub/subs (immediate, shifted register, extended register), mov (register, wide, bitmask immediate), "
-         "nop, integer ldr/ldrb/ldrh/ldrsb/ldrsh/ldrsw and str/strb/strh with immediate addressing (offset, unscaled, pre- and post-index), "
-         "b, bl, b.cond, cbz/cbnz, tbz/tbnz, br, blr, ret: for every word of the class, every address and every machine state in which "
-         "the Arm pseudocode completes, running the IL the lifter emits (a Lean mirror of the lifter, compared syntactically with falcon's "
-         "real output on every differential case) yields the registers, NZCV, memory and next pc of an A64 interpreter that decodes the raw "
-         "word, written from the Arm pseudocode (AddWithCarry, ExtendReg, DecodeBitMasks, ConditionHolds, Mem[] LE/BE). For subs the C flag "
-         "is proved to be the negation of the architectural carry (known finding). All other accepted classes: four-way differential only "
-         "(falcon executor / Lean IL model / Lean A64 interpreter / mirror) over class-exhaustive word sweeps and boundary+random states.",
+    text="29 Lean theorems. For every integer A64 instruction class the lifter accepts - add/adds/sub/subs (immediate, shifted, extended "
+         "register), all mov aliases, nop, ldr*/str* (immediate, unscaled, pre/post-index, register offset, literal), "
+         "ldp/stp/ldpsw/ldnp/stnp, the ldar/stlr family and stlur (as plain accesses), prfm, b, bl, b.cond, cbz/cbnz, tbz/tbnz, br, blr, ret - "
+         "a Lean mirror of the lifter (compared syntactically with falcon's emitted IL on every differential case) is proved, for all words "
+         "of the class, all addresses and all states in which the Arm pseudocode completes, to yield the X0-X30/SP, NZCV, memory (LE and "
+         "BE) and next pc of an A64 interpreter that decodes the raw word, written from the Arm pseudocode (AddWithCarry, ExtendReg, "
+         "DecodeBitMasks, ConditionHolds, Mem[]). For subs the C flag is proved to be the negation of the architectural carry (known "
+         "finding C03/*/subs/c). SIMD&FP transfer registers: four-way differential only (falcon executor / Lean IL model / Lean A64 "
+         "interpreter / mirror) over class-exhaustive word sweeps and boundary+random states.",
     design_ref="DESIGN.md §6 C03",
     note="The specification is written from knowledge of the Arm ARM, which is not in the sandbox (no second source). CONSTRAINED "
-         "UNPREDICTABLE encodings and faulting accesses are excluded and counted. Classes listed under (C) in reports/C03.md are unproved.",
+         "UNPREDICTABLE encodings, data aborts, alignment faults and accesses wrapping past 2^64 are excluded and counted; memory ordering is not modelled; the mirror is tied to falcon by syntactic comparison, not by proof.",
     technique="Lean 4 mirror of the lifter + class theorems over all words, addresses and states; executable differential"),
  "C01": dict(
     category="proof",
-    text="32 Lean theorems. Instruction level (64-bit mode): for mov/add/sub/cmp/and/or/xor r,r and r,imm and inc/dec/neg/not r at all "
-         "operand sizes including high-byte registers, for all registers (aliasing included), all addresses and all states, running the "
-         "IL of a Lean mirror of the lifter (compared syntactically with falcon's real output on every generated case of these classes) "
-         "yields all sixteen registers, CF ZF SF OF, memory and next pc of a Lean x86 specification written from the SDM. Helper level: "
-         "flag formulas of add/adc/sub/sbb/inc/dec/neg, shl/shr/sar CF and results, cc_condition for all 16 codes, sub-register get/set "
-         "equal the SDM for all values at 8/16/32/64 bits. Everything else: four-way differential per (encoding, state): falcon's "
-         "executor on the lifted IL, the Lean IL semantics on the dumped IL, the Lean specification (both modes, on capstone's normalised "
-         "operand description), and for amd64 the HOST CPU single-stepping the same bytes from the same state (signal-frame context "
-         "switch with the trap flag). Template sweep of every accepted mnemonic x prefixes x 14 ModRM/SIB shapes.",
+    text="42 Lean theorems. Instruction level (64-bit mode): for mov/add/sub/cmp/and/or/xor in all five operand forms (r,r / r,imm / "
+         "r,[mem] / [mem],r / [mem],imm), lea, inc/dec/neg/not and setcc r8 - all registers and operand sizes including high-byte registers "
+         "(aliasing included), any base/index/scale/displacement, all addresses and every state with a mapped, non-wrapping access - "
+         "running the IL of a Lean mirror of the lifter (including mode.rs operand_value/load/store; compared syntactically with falcon's "
+         "real output on every generated case of these classes) yields all sixteen registers, CF ZF SF OF, memory and next pc of a Lean "
+         "x86 specification written from the SDM. Helper level: flag formulas of add/adc/sub/sbb/inc/dec/neg, shl/shr/sar CF and results, "
+         "cc_condition for all 16 codes, sub-register get/set equal the SDM for all values at 8/16/32/64 bits. Everything else: four-way "
+         "differential per (encoding, state): falcon's executor on the lifted IL, the Lean IL semantics on the dumped IL, the Lean "
+         "specification (both modes, on capstone's normalised operand description), and for amd64 the HOST CPU single-stepping the same "
+         "bytes from the same state (signal-frame context switch with the trap flag). Template sweep of every accepted mnemonic x "
+         "prefixes x 14 ModRM/SIB shapes.",
     design_ref="DESIGN.md §6 C01",
-    note="Memory operands, 32-bit mode and all mnemonics outside the listed classes have no instruction-level theorem (differential only). 32-bit mode has no silicon oracle (Lean spec "
+    note="cmovcc/jcc, stack and control transfer, shifts and bit tests at instruction level, segment- or 67-prefixed memory operands and all of 32-bit mode have no instruction-level theorem (differential only). 32-bit mode has no silicon oracle (Lean spec "
          "only). fs/gs forms have no silicon comparison. PF/AF are outside the property. 66-prefixed near branches are not generated "
          "(Intel and AMD differ). The fixed-width bit-vector theorems use bv_decide and therefore depend on its _native.bv_decide.ax_* "
          "axioms (listed per theorem in the evidence).",
     technique="Lean 4 mirror of the lifter + class theorems over all registers, immediates and states; differential testing against the Lean ISA specification validated on silicon"),
  "C02": dict(
     category="proof",
-    text="MIPS (mips/mipsel): for every register/immediate field and every state, the IL falcon emits for the integer ALU, shifts, "
-         "immediates, lui, slt*, lb/lbu/lh/lhu/lw, sb/sh/sw and for beq/bne/bgez/bgtz/blez/bltz/b/j with any such instruction in the delay "
-         "slot computes exactly the registers, memory and next pc of an interpreter decoding the raw word (Lean theorems "
-         "lift_correct_single, lift_correct_pair over a Lean mirror of the lifter); falcon's emitted IL is compared syntactically with "
-         "the proved mirror on every generated word. All other MIPS classes and PowerPC: three-way differential (falcon executor / Lean IL "
-         "model / Lean ISA interpreter) over the whole accepted opcode space, register-field sweeps and boundary states; the rlwinm mask "
-         "is proved equal to MASK(mb,me).",
+    text="MIPS (mips/mipsel) and 32-bit PowerPC: for every register/immediate field and every machine state, the IL falcon emits for the "
+         "proved classes computes exactly the registers, memory and next pc of a Lean interpreter decoding the raw word (theorems "
+         "lift_correct_single, lift_correct_pair, ppc_lift_correct over full Lean mirrors of the lifters). MIPS: integer ALU, shifts, "
+         "immediates, lui, slt*, movn/movz, HI/LO moves, mult/multu, byte/half/word loads and stores, the six conditional branches plus "
+         "b/j with any such instruction in the delay slot. PowerPC: every lifted mnemonic but bdnzl and conditional bclr, including "
+         "addze/srawi carry, record forms, rlwinm masks, update forms and stmw's exact word count. falcon's emitted IL is compared "
+         "syntactically with the proved mirror on every generated word. Remaining classes: three-way differential (falcon executor / Lean "
+         "IL model / Lean ISA interpreter) over the whole accepted opcode space, register-field sweeps and boundary states.",
     design_ref="DESIGN.md §6 C02",
     note="Interpreters transcribed from memory of the MIPS32 and Power ISA manuals (not in the sandbox, no second implementation); "
-         "universality over encodings is proved for the (A) classes only; 11 known findings (link/target evaluated after the delay slot, "
-         "division by zero, misaligned accesses, XER[SO], bdnzl).",
+         "universality over encodings is proved for the (A) classes only; jr is _partial; CR SO bits excluded (XER[SO] is not modelled by "
+         "falcon); one lemma (PpcCarry.addc_eq) uses bv_decide and carries its native axioms; 11 known findings (link/target evaluated "
+         "after the delay slot, division by zero, misaligned accesses, XER[SO], bdnzl).",
     technique="Lean 4 refinement proof (mirror of the lifter + ISA interpreter) + executable three-way correspondence"),
 }
 
